@@ -96,7 +96,7 @@ def poly_rows(asm_id, comp, zbnds, n_items, coeff_fn):
     return rows
 
 
-def random_power(rng, case, n_terms=None, zero_cells=False, components=("pins", "duct", "cool"), total=None):
+def random_power(rng, case, n_terms=None, zero_cells=False, components=("pins", "duct", "cool"), total=None, per_asm_mesh=False):
     """Adds a user power description: for every assembly, per component, per
     axial cell, per item a polynomial in the cell-relative coordinate."""
     L = case['core']['length']
@@ -105,8 +105,15 @@ def random_power(rng, case, n_terms=None, zero_cells=False, components=("pins", 
     cuts = sorted(round(rng.uniform(0.1, 0.9) * L, 4) for _ in range(ncell - 1))
     zb = [0.0] + cuts + [L]
     zb = sorted(set(zb))
+    zb_common = zb
+    all_zb = set(zb)
     rows = []
     for asm in case['assignment']:
+        if per_asm_mesh:
+            # every assembly its own axial power mesh: same number of cells, other interior boundaries
+            cuts = sorted(round(rng.uniform(0.1, 0.9) * L, 4) for _ in range(len(zb_common) - 2))
+            zb = sorted(set([0.0] + cuts + [L]))
+            all_zb |= set(zb)
         a = position_index(asm['ring'], asm['pos']) - 1      # DASSH position index (counts empty positions)
         t = case['types'][asm['type']]
         nr = t['num_rings']
@@ -129,7 +136,7 @@ def random_power(rng, case, n_terms=None, zero_cells=False, components=("pins", 
             rows += poly_rows(a + 1, 2, zb, n_duct_cells(nr) * nd, coeffs(base * 0.01))
         if "cool" in components:
             rows += poly_rows(a + 1, 3, zb, n_sc(nr), coeffs(base * 0.02))
-    case['power'] = dict(rows=rows, n_terms=n_terms, zbnds=zb, total_power=total, scaling=1.0)
+    case['power'] = dict(rows=rows, n_terms=n_terms, zbnds=(sorted(all_zb) if per_asm_mesh else zb), total_power=total, scaling=1.0)
     return case
 
 
